@@ -591,7 +591,8 @@ func (r *Rec) IterCheck(name string, a, b, n int, stops []int) {
 	passes := make([][]int, 0, len(stops))
 	pvals := make([][]int, 0, len(stops))
 	late := 0
-	lstops := make([]int, len(stops))
+	var nests []int // positions (in the logged stops) of the outer pass of a nested pair
+	var lstops []int
 	pan := guard(func() {
 		s := r.D.Seq(name, a, b, n)
 		if r.AfterCreate != nil {
@@ -611,6 +612,37 @@ func (r *Rec) IterCheck(name string, a, b, n int, stops []int) {
 			}
 			var ks, vs []int
 			stopped := false
+			if stop == -2 {
+				// two passes over the same sequence value alive at the same time: while the outer pass is suspended at
+				// its j-th element, a complete inner pass runs; both must deliver the full result
+				var iks, ivs []int
+				j := 1 + (a+b+i)%3
+				ran := false
+				inner := func() {
+					ran = true
+					s(func(k2, v2 int) bool {
+						iks = append(iks, k2)
+						ivs = append(ivs, v2)
+						return true
+					})
+				}
+				s(func(k, v int) bool {
+					ks = append(ks, k)
+					vs = append(vs, v)
+					if len(ks) == j {
+						inner()
+					}
+					return true
+				})
+				if !ran {
+					inner() // the outer pass was shorter than j elements: the inner one simply follows it
+				}
+				nests = append(nests, len(lstops))
+				passes = append(passes, ks, iks)
+				pvals = append(pvals, vs, ivs)
+				lstops = append(lstops, 1<<20, 1<<20)
+				continue
+			}
 			s(func(k, v int) bool {
 				if stopped {
 					late++
@@ -627,9 +659,9 @@ func (r *Rec) IterCheck(name string, a, b, n int, stops []int) {
 			passes = append(passes, ks)
 			pvals = append(pvals, vs)
 			if stop < 0 {
-				lstops[i] = 1 << 20
+				lstops = append(lstops, 1<<20)
 			} else {
-				lstops[i] = stop
+				lstops = append(lstops, stop)
 			}
 		}
 	})
@@ -643,6 +675,7 @@ func (r *Rec) IterCheck(name string, a, b, n int, stops []int) {
 	tr.fInt("p", a)
 	tr.fBool("open", name == "Range" && b == 0)
 	tr.fInts("stops", lstops)
+	tr.fInts("nest", nests)
 	tr.fIntss("passes", passes)
 	tr.fIntss("pvals", pvals)
 	tr.fInt("late", late)
@@ -862,6 +895,9 @@ func (r *Rec) randomIterCheck(sz int) {
 		} else {
 			stops = append(stops, 1+r.R.Intn(sz+1))
 		}
+	}
+	if r.R.Intn(3) == 0 {
+		stops = append(stops, -2) // an inner pass while an outer one is suspended
 	}
 	stops = append(stops, -1)
 	r.IterCheck(name, a, b, k, stops)
